@@ -34,7 +34,7 @@ def C10_full : Prop :=
 /-- **The whole `Input` interface agrees between the string back-end and any buffered back-end.** -/
 theorem input_interface_agrees :
     (∀ n, Agrees (In.lookahead n)) ∧ Agrees In.peek ∧ (∀ n, Agrees (In.peekNth n)) ∧
-    (∀ n, Agrees (In.skipN n)) ∧ Agrees In.lookCh ∧
+    Agrees In.skip ∧ (∀ n, Agrees (In.skipN n)) ∧ Agrees In.lookCh ∧
     (∀ c, Agrees (In.nextCharIs c)) ∧ (∀ n c, Agrees (In.nthCharIs n c)) ∧
     (∀ c1 c2, c1 ≠ '\x00' → c2 ≠ '\x00' → Agrees (In.next2Are c1 c2)) ∧
     (∀ c1 c2 c3, c1 ≠ '\x00' → c2 ≠ '\x00' → c3 ≠ '\x00' → Agrees (In.next3Are c1 c2 c3)) ∧
@@ -45,17 +45,12 @@ theorem input_interface_agrees :
     (∀ fl, Agrees (In.nextCanBePlainScalar fl)) ∧
     Agrees In.skipWhileNonBreakz ∧ Agrees In.skipWhileBlank ∧ (∀ out, Agrees (In.fetchWhileIsAlpha out)) ∧
     Agrees (In.skipWsToEol .yes) ∧ Agrees (In.skipWsToEol .no) :=
-  ⟨lookahead_agree, peek_agree, peekNth_agree, skipN_agree, lookCh_agree', nextCharIs_agree, nthCharIs_agree,
+  ⟨lookahead_agree, peek_agree, peekNth_agree, skip_agree, skipN_agree, lookCh_agree', nextCharIs_agree, nthCharIs_agree,
    next2Are_agree, next3Are_agree, nextIsDocumentIndicator_agree, nextIsDocumentStart_agree,
    nextIsDocumentEnd_agree, nextIsBlankOrBreak_agree, nextIsBlankOrBreakz_agree, nextIsBlank_agree,
    nextIsBreak_agree, nextIsBreakz_agree, nextIsZ_agree, nextIsFlow_agree, nextIsDigit_agree, nextIsAlpha_agree,
    nextCanBePlainScalar_agree, skipWhileNonBreakz_agree, skipWhileBlank_agree, fetchWhileIsAlpha_agree,
    skipWsToEol_agree .yes (Or.inl rfl), skipWsToEol_agree .no (Or.inr rfl)⟩
-
-/-- `skip` drops the same character on both sides when the buffered side holds one (every `skip` of
-the scanner follows a look-ahead request; the real `pop_front` on an empty ring silently does nothing) -/
-theorem skip_agrees (i j : In) (h : SimIn i j) (hne : j.buf ≠ []) : AgreeR j (In.skip i) (In.skip j) :=
-  skip_agree' i j h hne
 
 /-- `raw_read_non_breakz_ch` reads behind the look-ahead buffer; with the buffer empty (what
 `scan_block_scalar_content_line` checks first) it agrees with the string back-end -/
